@@ -3,9 +3,10 @@
   that the base monitor's report reader adds a record to `delivered` only together with `mayMark`.
 -/
 import Nq.DaemonOwed
+import Nq.Lemmas.DaemonInv
 
 namespace Nq.Lemmas.DO
-open Nq Nq.Daemon
+open Nq Nq.Daemon Nq.Lemmas.DI
 
 theorem msg_setDline (s : St) (c : Ch) (v : Bytes × Nat) (m : Nat) : (s.setDline c v).msg m = s.msg m := by
   cases c <;> rfl
@@ -94,5 +95,186 @@ theorem mem_dropMsg {owed : List (Nat × Ch × Nat)} {x : Nat × Ch × Nat} {m :
     (hne : x.1 ≠ m) : x ∈ dropMsg owed m := by
   unfold dropMsg
   exact List.mem_filter.2 ⟨h, by simpa using hne⟩
+
+/-! ### which events can change a channel file; completion marks stay -/
+
+/-- events that can change the content or the existence of channel file `c` of message `m` -/
+def touchesChan (m : Nat) (c : Ch) : Ev → Bool
+  | .unlinkChan m' c' => m' == m && c' == c
+  | .creatChan m' c' => m' == m && c' == c
+  | .writeChan m' c' _ => m' == m && c' == c
+  | .markD m' c' _ => m' == m && c' == c
+  | .crashMarks m' c' _ => m' == m && c' == c
+  | .crashTodoFiles m' => m' == m
+  | .newmsg m' _ _ => m' == m
+  | _ => false
+
+theorem handleReport_chan (cfg : Cfg) (s : St) (c : Ch) (rep : Bytes) (m : Nat) (c' : Ch) :
+    ((handleReport cfg s c rep).msg m).chan c' = (s.msg m).chan c' := by
+  simp only [handleReport]
+  repeat' split
+  all_goals first
+    | rfl
+    | (simp only [St.msg, St.upd, tabGet_set]; split <;> first | rfl | (subst_vars; cases c' <;> rfl))
+
+theorem feedReports_chan (cfg : Cfg) (c : Ch) (m : Nat) (c' : Ch) : ∀ (bs : Bytes) (s : St),
+    ((feedReports cfg s c bs).msg m).chan c' = (s.msg m).chan c'
+  | [], s => rfl
+  | b :: bs, s => by
+    simp only [feedReports]
+    split
+    · rw [feedReports_chan cfg c m c' bs, handleReport_chan, msg_setDline]
+    · rw [feedReports_chan cfg c m c' bs, msg_setDline]
+
+/-- frame lemma: an accepted event that does not touch channel file `c` of message `m` leaves it as it is -/
+theorem chan_frame (cfg : Cfg) (s s' : St) (e : Ev) (h : accept cfg s e = some s') (m : Nat) (c : Ch)
+    (ht : touchesChan m c e = false) : (s'.msg m).chan c = (s.msg m).chan c := by
+  cases e
+  case rbytes c' bs =>
+    simp only [accept] at h
+    split at h
+    · cases h
+    · cases h; rw [feedReports_chan]; rfl
+  all_goals (simp only [accept] at h; repeat' split at h)
+  all_goals first
+    | (cases h; done)
+    | (cases h; rfl)
+    | (cases h; simp only [St.msg, St.upd, tabGet_set]; split <;> first | rfl | (subst_vars; cases c <;> rfl))
+    | (cases h; simp only [St.msg, St.upd, tabGet_set]; split
+       · rename_i he; subst he; simp [touchesChan] at ht
+       · rfl)
+    | (cases h; simp only [St.msg, St.upd, tabGet_set]; split
+       · rename_i he; subst he; simp [touchesChan] at ht
+         simp only [chan_setChan, chan_setChanSynced]
+         rw [if_neg (fun hh => ht hh.symm)]
+       · rfl)
+    | (cases h; simp only [St.msg, St.upd, tabGet_set]; split
+       · rename_i he; subst he; exact chan_setChanSynced _ _ _ _
+       · rfl)
+
+theorem getD_append_left' {α : Type} (l l' : List α) (d : α) (n : Nat) (h : n < l.length) : (l ++ l').getD n d = l.getD n d := by
+  simp [List.getD, List.getElem?_append_left h]
+
+theorem getD_setDone_mono : ∀ (rs : List Rec) (i j : Nat), (rs.getD j ⟨false, []⟩).done = true →
+    ((setDone rs i).getD j ⟨false, []⟩).done = true
+  | [], _, _, h => by simp at h
+  | r :: rs, 0, 0, _ => by simp [setDone]
+  | r :: rs, 0, j + 1, h => by simpa [setDone] using h
+  | r :: rs, i + 1, 0, h => by simpa [setDone] using h
+  | r :: rs, i + 1, j + 1, h => by
+    have := getD_setDone_mono rs i j (by simpa using h)
+    simpa [setDone] using this
+
+theorem getD_setDone_self : ∀ (rs : List Rec) (i : Nat), i < rs.length → ((setDone rs i).getD i ⟨false, []⟩).done = true
+  | [], _, h => by simp at h
+  | r :: rs, 0, _ => by simp [setDone]
+  | r :: rs, i + 1, h => by
+    have := getD_setDone_self rs i (by simpa using h)
+    simpa [setDone] using this
+
+theorem recIndex_lt : ∀ (rs : List Rec) (pos idx : Nat), recIndex rs pos = some idx → idx < rs.length
+  | [], _, _, h => by simp [recIndex] at h
+  | r :: rs, pos, idx, h => by
+    simp only [recIndex] at h
+    split at h
+    · cases h; simp
+    · split at h
+      · cases h
+      · cases hr : recIndex rs (pos - r.size) with
+        | none => simp [hr] at h
+        | some k =>
+          simp [hr] at h
+          have := recIndex_lt rs _ k hr
+          subst h; simp; omega
+
+theorem markedDone_of_chan (s s' : St) (x : Nat × Ch × Nat) (h : (s'.msg x.1).chan x.2.1 = (s.msg x.1).chan x.2.1) :
+    markedDone s' x = markedDone s x := by
+  simp only [markedDone, h]
+
+/-- **A completion mark on disk stays** under every accepted event except a machine crash that reverts marks of that file
+(`crashMarks`), the removal of the file (`unlinkChan`) and a machine crash that garbles the files of a message still being
+preprocessed (`crashTodoFiles`) -/
+theorem markedDone_step (cfg : Cfg) (s s' : St) (e : Ev) (h : accept cfg s e = some s') (x : Nat × Ch × Nat)
+    (hm : markedDone s x = true) :
+    markedDone s' x = true ∨ (∃ marks, e = .crashMarks x.1 x.2.1 marks) ∨ e = .unlinkChan x.1 x.2.1 ∨ e = .crashTodoFiles x.1 := by
+  by_cases ht : touchesChan x.1 x.2.1 e = false
+  · left; rw [markedDone_of_chan s s' x (chan_frame cfg s s' e h x.1 x.2.1 ht)]; exact hm
+  · have ht : touchesChan x.1 x.2.1 e = true := by simpa using ht
+    obtain ⟨m, c, i⟩ := x
+    simp only at hm ht ⊢
+    cases e with
+    | unlinkChan m' c' =>
+      simp [touchesChan] at ht; right; right; left; rw [ht.1, ht.2]
+    | crashMarks m' c' marks =>
+      simp [touchesChan] at ht; right; left; exact ⟨marks, by rw [ht.1, ht.2]⟩
+    | crashTodoFiles m' =>
+      simp [touchesChan] at ht; right; right; right; rw [ht]
+    | newmsg m' sd rc =>
+      simp [touchesChan] at ht; subst ht
+      simp only [accept] at h
+      split at h
+      · rename_i hg
+        exfalso
+        simp only [markedDone] at hm
+        cases c
+        · have h6 := hg.2.2.2.2.2.1
+          cases hl : (s.msg m').loc with
+          | none => simp [MsgSt.chan, hl] at hm
+          | some rs => simp [hl] at h6
+        · have h7 := hg.2.2.2.2.2.2.1
+          cases hl : (s.msg m').rem with
+          | none => simp [MsgSt.chan, hl] at hm
+          | some rs => simp [hl] at h7
+      · cases h
+    | creatChan m' c' =>
+      simp [touchesChan] at ht; obtain ⟨h1, h2⟩ := ht; subst h1; subst h2
+      simp only [accept] at h
+      split at h
+      · rename_i hg
+        exfalso
+        simp only [markedDone] at hm
+        cases hl : (s.msg m').chan c' with
+        | none => simp [hl] at hm
+        | some rs => have := hg.2.2; simp [hl] at this
+      · cases h
+    | writeChan m' c' bs =>
+      simp [touchesChan] at ht; obtain ⟨h1, h2⟩ := ht; subst h1; subst h2
+      simp only [accept] at h
+      split at h
+      · rename_i cur rs hcur _
+        split at h
+        · cases h
+          left
+          simp only [markedDone] at hm ⊢
+          rw [hcur] at hm
+          simp only [Bool.and_eq_true, decide_eq_true_eq] at hm
+          simp only [St.msg, St.upd, tabGet_set, if_true, chan_setChanSynced, chan_setChan]
+          simp only [Bool.and_eq_true, decide_eq_true_eq, List.length_append]
+          refine ⟨by omega, ?_⟩
+          rw [getD_append_left' _ _ _ _ hm.1]; exact hm.2
+        · cases h
+      · cases h
+    | markD m' c' pos =>
+      simp [touchesChan] at ht; obtain ⟨h1, h2⟩ := ht; subst h1; subst h2
+      simp only [accept] at h
+      split at h
+      · cases h
+      · split at h
+        · cases h
+        · rename_i rs hrs
+          split at h
+          · cases h
+          · rename_i idx _
+            split at h
+            · cases h
+              left
+              simp only [markedDone] at hm ⊢
+              rw [hrs] at hm
+              simp only [Bool.and_eq_true, decide_eq_true_eq] at hm
+              simp only [St.msg, St.upd, tabGet_set, if_true, chan_setChan]
+              simp only [Bool.and_eq_true, decide_eq_true_eq, length_setDone]
+              exact ⟨hm.1, getD_setDone_mono rs idx i hm.2⟩
+            · cases h
+    | _ => simp [touchesChan] at ht
 
 end Nq.Lemmas.DO
